@@ -17,10 +17,11 @@
   the new `last_tracking_data` is `(pollStep ..).1.lastGood`, `keep_running` is false iff the mailbox
   returned `Ok(ThreadAbort)`, all other variables are unchanged; where the model's message is `panic`
   (`expect` on an unparsable / out-of-range sysfs value) the thread panics.
-  `iteration_send_fails`: if the send returns `Err` the thread panics.
-  `iteration_clock_fails`: if the clock read returns `Err` nothing is queried or sent, the thread waits.
+  `default_eq` (`Poller.init`), `grace_eq` (`withinGrace`, strict `<` 5 s).
+  NOT proved here (time): the failed-send and failed-clock-read iterations, the whole loop (`loop_eq`).
 -/
 import ClockBound.Proofs.RsPollerAll
+import ClockBound.Proofs.RsPollerDefault
 namespace ClockBound.CodeTiePoller
 open ClockBound ClockBound.Rs ClockBound.Generated ClockBound.Rs.DictPoller
 
@@ -47,6 +48,27 @@ theorem iteration_eq (e : IterEnv) (s : PollerState) (coarse : TimeSpec) (reply 
         (log ++ (pollTrace s coarse reply tReply tGrace (phcOf refid file)).map (pollEvValue e))
         (pos + (pollTrace s coarse reply tReply tGrace (phcOf refid file)).length)) :=
   PollerProof.iteration e s coarse reply tReply tGrace refid file nowNs inp log pos c body hfw hother hsend hin N hN next
+
+/-- `impl Default for ClockErrorBoundPoller` = the model's `Poller.init`: `Instant::now()` (the input `tStart`,
+    logged) minus the 5 s of `CHRONY_RESTART_GRACE_PERIOD`; the `unwrap` panics exactly when `checked_sub` leaves
+    the range of an `Instant` (`DictPoller.instantLo`) -/
+theorem default_eq (tStart nowNs : Int) (inp : Nat → Value) (h0 : inp 0 = instant tStart) :
+    run (ctxP nowNs inp) "Default for ClockErrorBoundPoller::default" .unit []
+    = if instantLo ≤ tStart - GRACE_NS then
+        .ok (pollerValue (Poller.init tStart)) .unit [evInstantNow (instant tStart)]
+      else .panic :=
+  PollerProof.default_tie tStart nowNs inp h0
+
+/-- `is_within_grace_period` = the model's `withinGrace` (strict `<` 5 s on the saturating `elapsed()`),
+    `tGrace` = the reading of the monotonic clock inside `elapsed()` (one input, logged); `self` is unchanged -/
+theorem grace_eq (s : PollerState) (tGrace nowNs : Int) (inp : Nat → Value) (h0 : inp 0 = instant tGrace) :
+    run (ctxP nowNs inp) "ChronyOperations for ClockErrorBoundPoller::is_within_grace_period" (pollerValue s) []
+    = .ok (.bool (s.withinGrace tGrace)) (pollerValue s) [evInstantNow (instant tGrace)] :=
+  PollerProof.grace_tie s tGrace nowNs inp h0
+
+/-- the boundary is strict: exactly 5 s after the last good reply the poller is NOT within grace -/
+example : (PollerState.mk 1000).withinGrace (1000 + 5000000000) = false ∧
+    (PollerState.mk 1000).withinGrace (1000 + 4999999999) = true := by decide
 
 /-- the loop is there: `findWhile` finds it, its condition is the variable `keep_running` -/
 theorem loop_found : ∃ body, findWhile Code.fn_chrony_poller__run_clock_error_bound_poller.body
